@@ -9,8 +9,18 @@
    dropped, a last token without newline is delivered if it is not empty.
    Only leading BLANKS (32) are removed: a TAB or any other white space in front,
    and every trailing byte, reaches the codec.
-   Not modelled: the scanner's token limit (a line longer than 64 KiB ends the
-   scan with bufio.ErrTooLong, the compilation then fails).  No proofs here. *)
+   The scanner's token limit: bufio.NewScanner without a Buffer call keeps
+   bufio.MaxScanTokenSize = 64 * 1024 (a constant of the Go standard library, trusted
+   base; parser.go does not set it).  Scan grows its buffer up to that size; when the
+   buffer is full and ScanLines has found no newline in it, Scan stops with
+   bufio.ErrTooLong.  A line is therefore accepted iff its bytes (a trailing CR
+   included, the newline not) number at most 65535, also the last line without
+   newline (a full buffer is an error before the end of the file is seen): reader_overflow.
+   After the loop parse() returns scanner.Err(), so the compilation fails: E_READER.
+   (Which of E_CONV / E_READER is reported when an earlier line is also rejected by the
+   codec is not distinguished: the reader error is reported.)
+   Not modelled: an error of the io.Reader itself (same path: scanner.Err()).
+   No proofs here. *)
 From DnsV Require Export Model.Compile.
 Open Scope N_scope.
 
@@ -37,7 +47,22 @@ Definition line_kept (l : bytes) : bool :=
   | _ => false
   end.
 
-(* the lines handed to the codec, in file order *)
+(* bufio.MaxScanTokenSize *)
+Definition max_scan_token_size : N := 65536.
+Definition E_READER : N := 23.      (* scanner.Err(): bufio.ErrTooLong *)
+
+(* n: bytes of the current token seen so far; true when a token reaches the buffer size
+   without a newline *)
+Fixpoint reader_overflow (data : bytes) (n : N) : bool :=
+  match data with
+  | [] => false
+  | b :: r => if b =? 10 then reader_overflow r 0
+              else if n + 1 =? max_scan_token_size then true
+              else reader_overflow r (n + 1)
+  end.
+Definition reader_fails (data : bytes) : bool := reader_overflow data 0.
+
+(* the lines handed to the codec, in file order (when the reader does not fail) *)
 Definition read_file (data : bytes) : list bytes :=
   filter line_kept (map trim_left_blanks (scan_lines data)).
 
@@ -51,9 +76,12 @@ Section OnFiles.
 
   Definition file_records (data : bytes) : list kv := records bytes conv accum feature (read_file data).
   Definition compile_file_builder (min_size : N) (nb : nat) (data : bytes) (stream : list kv) : result store :=
-    compile_builder bytes conv sort min_size nb (read_file data) stream.
+    if reader_fails data then Err E_READER
+    else compile_builder bytes conv sort min_size nb (read_file data) stream.
   Definition compile_file_batches (data : bytes) (order : list (list kv)) : result store :=
-    compile_batches bytes conv sort (read_file data) order.
+    if reader_fails data then Err E_READER
+    else compile_batches bytes conv sort (read_file data) order.
   Definition compile_file_cdb (data : bytes) (stream : list kv) : result (list kv) :=
-    compile_cdb bytes conv (read_file data) stream.
+    if reader_fails data then Err E_READER
+    else compile_cdb bytes conv (read_file data) stream.
 End OnFiles.
